@@ -588,6 +588,11 @@ func TestC11SourceHistories(t *testing.T) {
 			if nested || kind == "http" && (h/3)%4 == 1 {
 				bad = "list-cut-off"
 			}
+			if kind == "http" && (h/3)%4 == 3 {
+				// the certificate server answers with an error page for a while (it is restarting)
+				bad = []string{"server-answers-503", "server-answers-404", "server-answers-500"}[(h/12)%3]
+			}
+			var errorPage atomic.Int32
 			var cutList atomic.Bool
 			gen1, gen2 := 100+2*h, 101+2*h
 			set1 := []certSpec{{cn: "one.example.com", sans: []string{"*.one.example.com"}, id: fmt.Sprintf("%d/0", gen1)}, {cn: "two.example.com", id: fmt.Sprintf("%d/1", gen1)}}
@@ -652,6 +657,10 @@ func TestC11SourceHistories(t *testing.T) {
 				src = cert.PathSource{Path: srcPath, Refresh: time.Second}
 			} else {
 				srv := httptest.NewServer(http.HandlerFunc(func(w http.ResponseWriter, r *http.Request) {
+					if code := int(errorPage.Load()); code != 0 {
+						http.Error(w, "<html><body>the certificate service is starting up</body></html>", code)
+						return
+					}
 					fs := current.Load().(fileSet)
 					if r.URL.Path == prefix+"list" {
 						atomic.AddInt64(&listHits, 1)
@@ -724,7 +733,11 @@ func TestC11SourceHistories(t *testing.T) {
 			}
 			// 2. unusable material for ~2.5 s
 			hits0 := atomic.LoadInt64(&listHits)
-			if bad == "list-cut-off" {
+			if strings.HasPrefix(bad, "server-answers-") {
+				code, _ := strconv.Atoi(strings.TrimPrefix(bad, "server-answers-"))
+				errorPage.Store(int32(code))
+				hx.Class("history:http-server-answers-with-an-error-page")
+			} else if bad == "list-cut-off" {
 				cutList.Store(true)
 				hx.Class("history:http-list-download-cut-off")
 			} else {
@@ -754,6 +767,7 @@ func TestC11SourceHistories(t *testing.T) {
 				}
 			}
 			cutList.Store(false)
+			errorPage.Store(0)
 			// 3. a new good set takes effect without restart
 			if kind == "consul" && h%2 == 0 {
 				// the Consul servers were restored from a snapshot in the meantime: indexes restart low
